@@ -31,6 +31,7 @@ struct cbnode {
 	int id;
 	int chain_left;
 	int free_self;
+	int reads;
 	struct obj *obj;
 };
 
@@ -95,6 +96,7 @@ static void do_call(int who, int chain, struct obj *obj, int free_self)
 	n->free_self = free_self;
 	n->obj = obj;
 	id = n->id = orc_cb_new(who);
+	n->reads = id % 3 == 0 ? 1 + id % 4 : 0;	/* a third of the callbacks are RCU readers themselves */
 	F->call_rcu(&n->head, cb_func);
 	orc_cb_called(id);	/* n may already have been freed by its callback */
 }
@@ -112,6 +114,25 @@ static void cb_func(struct rcu_head *h)
 		free(n->obj);
 	if (n->chain_left > 0)
 		do_call(-1, n->chain_left - 1, NULL, n->chain_left & 1);
+	if (n->reads) {
+		/* "callbacks may take the read-side lock": the helper thread is a registered (qsbr: online) reader while it runs them */
+		int cs, k;
+		struct obj *p;
+		long v, a, b;
+		F->read_lock();
+		cs = orc_cs_begin(40 + usim_tid());
+		p = rcu_dereference(gptr);
+		v = p->version;
+		a = p->a;
+		for (k = 0; k < n->reads; k++)
+			usim_pause();
+		b = p->b;
+		if (a != v * 3 + 1 || b != v * 7 + 2)
+			usim_fail("reclaimed-object-read", "a call_rcu callback reading inside a read-side section saw object version %ld with a=%ld b=%ld", v, a, b);
+		orc_cs_end(cs);
+		F->read_unlock();
+		usim_probe("callrcu.callback_was_a_reader");
+	}
 	orc_cb_end(id);
 	if (n->free_self)
 		free(n);
